@@ -62,6 +62,7 @@ def generate(seed, tier, index):
         'status': rng.choice([0, 0, 1, 2, 99, 127, 255, rng.randrange(256)]),
         'sched_seed': rng.randrange(1 << 30),
         'prog': ['prog'] + [rng.choice(OPTIONISH) for _ in range(rng.randint(0, 5))],
+        'run_spelling': rng.choice(['-r', '-r', '--run', 'cluster', 'cluster']),
         'environ': dict(common.BASE_ENV, **rng.choice([{}, {'WAYLAND_DEBUG': '0'}, {'WAYLAND_DEBUG': 'client'},
                                                        {'LD_LIBRARY_PATH': '/opt/lib'}, {'FOO': 'bar baz', 'EMPTY': ''}])),
     }
